@@ -3,21 +3,23 @@
 use std::collections::HashMap;
 use std::sync::OnceLock;
 
-const DIR: &str = "/repo/physics/data/calibration";
+fn dir() -> String {
+    format!("{}/physics/data/calibration", crate::core::repo_dir())
+}
 pub const SIM_RUN: u32 = u32::MAX;
 
 fn wire_file_baseline(name: &str) -> HashMap<usize, i16> {
-    let d: HashMap<String, (f64, f64, f64)> = serde_json::from_slice(&std::fs::read(format!("{DIR}/wires/baseline/{name}")).expect("calibration file")).expect("json");
+    let d: HashMap<String, (f64, f64, f64)> = serde_json::from_slice(&std::fs::read(format!("{}/wires/baseline/{name}", dir())).expect("calibration file")).expect("json");
     d.into_iter().map(|(k, v)| (k.parse().unwrap(), v.0.round() as i16)).collect()
 }
 fn wire_file_gain(name: &str) -> HashMap<usize, f64> {
-    let d: HashMap<String, f64> = serde_json::from_slice(&std::fs::read(format!("{DIR}/wires/gain/{name}")).expect("calibration file")).expect("json");
+    let d: HashMap<String, f64> = serde_json::from_slice(&std::fs::read(format!("{}/wires/gain/{name}", dir())).expect("calibration file")).expect("json");
     d.into_iter().map(|(k, v)| (k.parse().unwrap(), v)).collect()
 }
 
 /// tiny scanner for `{(column:C,row:R):VALUE,...}` where VALUE is a number or a `(a,b,c)` tuple
 fn pad_file(path: &str) -> HashMap<(usize, usize), f64> {
-    let s = std::fs::read_to_string(format!("{DIR}/pads/{path}")).expect("calibration file");
+    let s = std::fs::read_to_string(format!("{}/pads/{path}", dir())).expect("calibration file");
     let mut out = HashMap::new();
     let mut rest = s.as_str();
     while let Some(p) = rest.find("(column:") {
